@@ -1,6 +1,8 @@
 package props
 
 import (
+	"fmt"
+	"strings"
 	"go/token"
 	"go/types"
 
@@ -79,6 +81,89 @@ func checkC16(c *core.Ctx) {
 	r3 := c.Rule("R16.3", "T", "channel closed only by defer in the goroutine body; goroutine started only under c == nil after storing c")
 	r4 := c.Rule("R16.4", "T", "sends are blocking selects with ctx.Done(); every cycle through the read re-tests the context")
 	r5 := c.Rule("R16.5", "T", "NextPacket: error returned, bytes/decoder/options passed through, CaptureInfo stored, Truncated from CaptureLength < Length")
+	r7 := c.Rule("R16.7", "T", "end-of-input from a PacketDataSource is recognised with errors.Is (sources may wrap io.EOF), never by comparing the error value with io.EOF")
+	{
+		n := 0
+		for _, fn := range core.SortedFns(p.AllFns) {
+			if core.FnPkg(fn) == nil || core.FnPkg(fn).Path() != core.Mod || len(fn.Blocks) == 0 || strings.HasSuffix(p.Pos(fn.Pos()), "_test.go") {
+				continue
+			}
+			// error values obtained from ReadPacketData / ZeroCopyReadPacketData invokes
+			fromSource := func(v ssa.Value) bool {
+				seen := map[ssa.Value]bool{}
+				var walk func(v ssa.Value, d int) bool
+				walk = func(v ssa.Value, d int) bool {
+					if d > 6 || seen[v] {
+						return false
+					}
+					seen[v] = true
+					switch x := v.(type) {
+					case *ssa.Extract:
+						if call, ok := x.Tuple.(*ssa.Call); ok && call.Call.IsInvoke() && strings.HasSuffix(call.Call.Method.Name(), "ReadPacketData") {
+							return true
+						}
+					case *ssa.Phi:
+						for _, e := range x.Edges {
+							if walk(e, d+1) {
+								return true
+							}
+						}
+					case *ssa.UnOp:
+						// a named result spilled to memory: any store into it from a source
+						if al, ok := x.X.(*ssa.Alloc); ok {
+							for _, r := range *al.Referrers() {
+								if st, ok := r.(*ssa.Store); ok && st.Addr == ssa.Value(al) && walk(st.Val, d+1) {
+									return true
+								}
+							}
+						}
+					}
+					return false
+				}
+				return walk(v, 0)
+			}
+			isEOF := func(v ssa.Value) bool {
+				if a, ok := core.IsLoad(v); ok {
+					if g, ok := a.(*ssa.Global); ok && g.Name() == "EOF" && g.Pkg != nil && g.Pkg.Pkg.Path() == "io" {
+						return true
+					}
+				}
+				return false
+			}
+			k := 0
+			core.Instrs(fn, func(ins ssa.Instruction) {
+				switch x := ins.(type) {
+				case *ssa.BinOp:
+					if x.Op != token.EQL && x.Op != token.NEQ {
+						return
+					}
+					var other ssa.Value
+					if isEOF(x.X) {
+						other = x.Y
+					} else if isEOF(x.Y) {
+						other = x.X
+					} else {
+						return
+					}
+					if !fromSource(other) {
+						return
+					}
+					n++
+					k++
+					r7.Violate(fmt.Sprintf("%s/eof-compare#%d", core.FnKey(fn), k), p.InstrPos(ins), "the error returned by a PacketDataSource is compared with io.EOF by value: a source that wraps io.EOF (fmt.Errorf(\"...: %w\", io.EOF)) is not recognised as exhausted, so the remaining sources are never read although the consumer, which uses errors.Is, stops", nil)
+				case *ssa.Call:
+					if f := x.Call.StaticCallee(); f != nil && f.Name() == "Is" && f.Pkg != nil && f.Pkg.Pkg.Path() == "errors" && len(x.Call.Args) == 2 && isEOF(x.Call.Args[1]) && fromSource(x.Call.Args[0]) {
+						n++
+						k++
+						r7.OK(fmt.Sprintf("%s/eof-is#%d", core.FnKey(fn), k), p.InstrPos(ins), "errors.Is(err, io.EOF)")
+					}
+				}
+			})
+		}
+		if n < 1 {
+			r7.Missing("packet source/eof tests", fmt.Sprintf("only %d end-of-input tests on source errors found", n))
+		}
+	}
 	r6 := c.Rule("R16.6", "T", "io.EOF terminates the loop; nothing is sent on the error edge")
 
 	pctx := p.Func("", "PacketSource.PacketsCtx")
